@@ -10,6 +10,8 @@
 //!   `ar_pred <tag> <intercept> <vec coeffs> <h> <vec hist>`    -> `= <vec>`
 //!   `ar_fp <tag> <p> <h> <vec data>`   fit, predict_one(data), predict(data, h)
 //!                                                              -> `= <intercept> <vec coeffs> <pred1> <vec preds>`
+//!   `ar_refit <tag> <p> <h> <k> <vec s1> … <vec sk>`   ONE `AR::new(p)` object fitted on s1, re-fitted on s2, …;
+//!        after each fit: `<intercept> <vec coeffs> <vec predict(s_i, h)>` (k blocks in one reply)
 use compute::linalg::toeplitz;
 use compute::timeseries::{acf, acovf, difference, AR};
 use cvexec::*;
@@ -92,6 +94,25 @@ fn step(_: &mut (), t: &mut Toks) -> R<String> {
                 show_f(p1),
                 show_vec(&ps)
             )))
+        }
+        "ar_refit" => {
+            let p = t.usize()?;
+            let h = t.usize()?;
+            let k = t.usize()?;
+            let mut series = Vec::new();
+            for _ in 0..k {
+                series.push(t.vec()?);
+            }
+            t.end()?;
+            let mut ar = AR::new(p);
+            let mut out: Vec<String> = Vec::new();
+            for s in series.iter() {
+                ar.fit(s);
+                out.push(show_f(ar.intercept));
+                out.push(show_vec(&ar.coeffs));
+                out.push(show_vec(&ar.predict(s, h)));
+            }
+            Ok(ok(out.join(" ")))
         }
         _ => Err(BadOp),
     }
